@@ -196,6 +196,8 @@ def run(ctx, res):
     )
     cf = run_confinement(ctx)
     hs = handlers_of(ctx, lambda t: t[0] in FLAT and t[1] in FLAT)
+    from .c04 import report_binding_slips
+    ctx.require(res, "R1.7", report_binding_slips(ctx, res, "R1.7", hs), 2, "handlers bound by the dispatcher")
     ctx.require(res, "R1.1", len(covered_pairs(ctx, lambda t: t[0] in FLAT and t[1] in FLAT)), 15, "flat x flat operand pairs bound to a handler")
     total = 0
     for fi in hs:
@@ -209,4 +211,12 @@ def run(ctx, res):
     k = numeric_rejections(ctx, res, "R1.4", hs, "flat x flat handlers")
     res.count("numeric rejections", k)
     res.undecided_ob("numeric kernels compute the right coordinates (assumption A4)")
+    # R1.6 the handlers' internal sanity raises ('Bug detected') are unreachable: by the E1 types of the value switched on,
+    # by an equality the callee already decided, propositionally, or by the number of add sites (the analysis of C04 R4.7)
+    from .c04 import r47
+    r47(ctx, res, scope=list(hs), rule="R1.6", need=5)
+    # R1.5 the linear solver picks its pivot row by the pivot column (coverage.py)
+    from ..coverage import check_pivot_choice
+    kp = check_pivot_choice(ctx, res, "R1.5")
+    ctx.require(res, "R1.5", kp, 2, "row elements read by find_pivot_row")
     res.undecided_ob("completeness beyond end-point candidates; tolerance band; None only when disjoint")
